@@ -39,7 +39,8 @@ STREAMS = ['unmarshal-valid-truncated-mutated', 'message-truncated-mutated', 'ly
 THEOREMS = ['tables_good', 'unmarshal_fuel_adequate', 'unmarshal_steps_linear', 'unmarshal_work_linear',
             'unmarshal_depth_bounded', 'result_size_bounded', 'result_chars_bounded', 'unmarshal_bounded',
             'parseMessage_total', 'parseMessage_work_linear', 'prefix_array_loop_never_terminates',
-            'cost_agrees_with_code', 'cost_simulates_code', 'code_fuel_adequate', 'code_result_bounded']
+            'cost_agrees_with_code', 'cost_simulates_code', 'code_fuel_adequate', 'code_fuel_independent',
+            'code_result_bounded']
 TRUSTED_BASE = [
     'Python semantics mirrored by hand in Wire/Cost.lean and validated only by the streams: struct.unpack_from '
     'bounds rule (offset + size <= len), slice clamping, codecs.decode utf-8/ascii (Wire/Utf8.lean), generator '
